@@ -34,7 +34,8 @@ fn check_complete(truth: &RespHead, hlen: usize, n: usize, obs: &RespObs, rec: &
 }
 
 fn head_case(rng: &mut Rng, all_prefixes: bool, redirect_focus: bool, rec: &mut Rec) {
-    let nf = if redirect_focus { rng.usize_in(1, 8) } else { field_count_choice(rng) };
+    let lane = crate::core::lane_mode();
+    let nf = if lane { rng.usize_in(0, 3) } else if redirect_focus { rng.usize_in(1, 8) } else { field_count_choice(rng) };
     let truth = gen_resp_head(rng, nf, redirect_focus);
     let head = truth.render();
     let hlen = head.len();
@@ -43,7 +44,12 @@ fn head_case(rng: &mut Rng, all_prefixes: bool, redirect_focus: bool, rec: &mut 
     let method = *rng.pick(&["GET", "HEAD", "GET", "DELETE"]);
     rec.ev(|| format!("head ({} bytes, {} fields, status {}): {:?}", hlen, nf, truth.status, esc_short(&head, 400)));
     let bounds = head_boundaries(&truth);
-    let prefixes = prefix_set(rng, hlen, &bounds, all_prefixes);
+    let mut prefixes = prefix_set(rng, hlen, &bounds, all_prefixes);
+    if lane {
+        // a dozen prefixes spread over the head
+        let step = (prefixes.len() / 12).max(1);
+        prefixes = prefixes.into_iter().step_by(step).collect();
+    }
     let loc_end = if redirect_focus {
         // offset right after the Location line
         let mut p = head.windows(2).position(|w| w == b"\r\n").unwrap() + 2;
@@ -144,6 +150,9 @@ fn head_case(rng: &mut Rng, all_prefixes: bool, redirect_focus: bool, rec: &mut 
             }
             other => return rec.fail("C05/complete-head-not-accepted", format!("parser: {:?}", other.map(|o| o.map(|v| v.0)))),
         }
+    }
+    if lane {
+        return;
     }
     // (c) one flow fed growing prefixes
     let mut f = recv_flow(method);
